@@ -148,6 +148,9 @@ func (a *ar) expr(e ast.Expr, en env) (string, kind) {
 				return "(-" + a.toI(s, k) + ")", kI
 			}
 		}
+		if v.Op == token.AND {
+			return a.expr(v.X, en) // &x: the value pointed to
+		}
 	case *ast.CallExpr:
 		fn := srcOf(v.Fun)
 		switch {
@@ -164,6 +167,12 @@ func (a *ar) expr(e ast.Expr, en env) (string, kind) {
 		case fn == "int" && len(v.Args) == 1:
 			s, k := a.expr(v.Args[0], en)
 			if k == kZ {
+				return s, kI
+			}
+		case fn == "time.Unix" && len(v.Args) == 2 && srcOf(v.Args[1]) == "0":
+			// a time is represented by its Unix second
+			s, k := a.expr(v.Args[0], en)
+			if k == kI {
 				return s, kI
 			}
 		case fn == "int64" && len(v.Args) == 1:
@@ -333,6 +342,20 @@ func (a *ar) ret(r *ast.ReturnStmt, en env) string {
 			if k == kI || k == kLit || k == kZ {
 				return fmt.Sprintf("(%s, %v)", a.toI(s, k), !isNil(r.Results[1]))
 			}
+		}
+	}
+	if a.fn == "taintTime" && len(r.Results) == 2 {
+		// (*time.Time, error) -> (the time is nil, an error is returned, the Unix second when there is a time)
+		e := "false"
+		if !isNil(r.Results[1]) {
+			e = "true"
+		}
+		if isNil(r.Results[0]) {
+			return "(true, " + e + ", (0 : Int))"
+		}
+		x, k := a.expr(r.Results[0], en)
+		if k == kI {
+			return "(false, " + e + ", " + x + ")"
 		}
 	}
 	if a.fn == "lockedFn" && len(r.Results) == 1 {
